@@ -37,15 +37,16 @@ def shards(tier, seed):
     if tier == "thorough":
         ys = list(range(1200, 1501))
         for i in range(12):
-            out.append({"part": "jalali", "years": ys[i::12], "full_every": 7})
+            out.append({"part": "jalali", "years": ys[i::12], "full_years": [y for y in ys if y % 7 == 0]})
         hy = list(range(1343, 1501))
         for i in range(4):
             out.append({"part": "hijri", "years": hy[i::4]})
     else:
         off = seed % 23
-        ys = [y for y in range(1200 + off, 1501, 23)] + [1399, 1403]
+        full = set([y for y in range(1200 + off, 1501, 23)] + [1399, 1403])
+        ys = list(range(1200, 1501))          # every year in the numeric spelling, the sampled ones in all spellings
         for i in range(10):
-            out.append({"part": "jalali", "years": ys[i::10], "full_every": 1})
+            out.append({"part": "jalali", "years": ys[i::10], "full_years": sorted(full)})
         hy = [y for y in range(1343 + seed % 9, 1501, 9)] + [1443, 1500]
         for i in range(3):
             out.append({"part": "hijri", "years": hy[i::3]})
@@ -111,7 +112,7 @@ def run_jalali(ctx, desc):
 
     rnd = rng(ctx.seed, "C15", desc["years"][0] if desc["years"] else 0)
     for yi, y in enumerate(desc["years"]):
-        full = (y % desc["full_every"] == 0) or desc["full_every"] == 1
+        full = y in desc["full_years"]
         prev = None
         ylen = 0
         for m in range(1, 13):
@@ -222,7 +223,7 @@ def run_shard(ctx, desc):
 def finalize(merged, tier, seed):
     c = merged["counters"]
     inc = []
-    if c.get("jalali_years", 0) < (12 if tier == "quick" else 301):
+    if c.get("jalali_years", 0) < 301:
         inc.append("Jalali walk covered %d years" % c.get("jalali_years", 0))
     if c.get("hijri_years", 0) < (12 if tier == "quick" else 158):
         inc.append("Hijri walk covered %d years" % c.get("hijri_years", 0))
